@@ -378,3 +378,35 @@ fn u12_catch_convert_args() {
     }
     std::mem::forget(map);
 }
+
+// ---- base case component: the difficulty-object array built by `create_difficulty_objects` -------------------------
+fn base_case(n: usize) {
+    let mut objs: Vec<PalpableObject> = Vec::with_capacity(4);
+    let mut i = 0;
+    while i < n {
+        objs.push(PalpableObject::new(kani::any(), 0.0, 500.0 * i as f64));
+        i += 1;
+    }
+    let d = DifficultyValues::create_difficulty_objects(1.0, 50.0, objs.iter());
+    assert!(d.len() + 1 == if n == 0 { 1 } else { n }, "C02 one difficulty object per palpable object after the first");
+    let mut j = 0;
+    while j < d.len() {
+        assert!(d[j].idx == j, "C02 difficulty objects are indexed in object order");
+        j += 1;
+    }
+    std::mem::forget(d);
+    std::mem::forget(objs);
+}
+
+//@ obl: id=U12.catch.base_case harness=u12_catch_base_case props=C02,C15 tier=quick kind=bounded
+//@ fns: catch DifficultyValues::create_difficulty_objects
+//@ bound: bounded: 0, 1, 2 and 3 palpable objects (x positions symbolic)
+//@ clause: part of the invariant's base case: create_difficulty_objects returns max(N,1)-1 difficulty objects, the j-th with idx == j (so diff_objects.len() + 1 == number of palpable objects for N >= 1)
+#[kani::proof]
+#[kani::unwind(6)]
+fn u12_catch_base_case() {
+    base_case(0);
+    base_case(1);
+    base_case(2);
+    base_case(3);
+}
